@@ -26,6 +26,11 @@ def desc_byte(k, rel):
 def run(tier):
     rep = Report('C06', tier)
     prog = load_core('systemd')
+    # premise of everything decided per interface record: the lookup hands out the record keyed by the interface (hit only after
+    # comparing the context), creates an all-zero one only on a miss, and never stores into or re-links an existing record
+    rep.rule('R06.8', 'the interface-record lookup: hit only on an equal context, fresh record all-zero and keyed by the context, existing records untouched', floor=3)
+    from .state_record import check_state_for_iface
+    check_state_for_iface(rep, prog, 'R06.8')
     rep.rule('R06.1', 'descriptor loop: the k-th iteration reads descriptor k at 34+14k inside the frame, trip count bounded by the MTU-derived capacity', floor=3)
     rep.rule('R06.2', 'per descriptor: exactly one pause with this descriptor\'s pause byte, then exactly one Probe/Train', floor=4)
     rep.rule('R06.3', 'Probe/Train: Ethernet source/destination = descriptor source/destination, kind as requested, real source = own MAC', floor=20)
